@@ -8,8 +8,12 @@ package cmd
 
 //@ pred clientWF() := client != nil && client.Conf != nil && client.Idx != nil && client.Head != nil && client.Refs != nil && client.Ignore != nil && gLogger != nil
 //@     && store.wfIndex(client.Idx) && store.wfRefs(client.Refs) && store.wfConfig(client.Conf)
-//@     && (client.Head.Commit != nil ==> client.Head.Commit.Object != nil && len(client.Head.Commit.Tree) >= 20)
+//@     && (client.Head.Commit != nil ==> client.Head.Commit.Object != nil && len(client.Head.Commit.Tree) >= 20 && len(client.Head.Commit.Hash) >= 20)
 //@     && (client.Head.Commit == nil ==> forall i int :: 0 <= i && i < len(client.Refs.Heads) ==> client.Refs.Heads[i].Name != client.Head.Reference)
+
+// Connectivity (C03) of what the client holds: the commit HEAD was loaded from is stored. Like logConn this is an invariant
+// of the repository assumed at command entry by the commands that copy that id into a branch file.
+//@ pred headConn() := client.Head.Commit != nil ==> object.commitStored(fs, client.RootGoitPath, client.Head.Commit.Hash)
 
 //@ func addCmd.PreRunE
 //@   returns err
@@ -27,6 +31,7 @@ package cmd
 
 //@ func branchCmd.RunE
 //@   requires clientWF() && cmd != nil
+//@   requires [repo-connected] headConn()
 
 //@ func catFileCmd.PreRunE
 //@   returns err
@@ -93,6 +98,7 @@ package cmd
 
 //@ func resetCmd.RunE
 //@   requires clientWF() && cmd != nil
+//@   requires [repo-connected] store.logConn(fs, client.RootGoitPath)
 
 //@ func restoreCmd.PreRunE
 //@   returns err
@@ -136,6 +142,7 @@ package cmd
 
 //@ func switchCmd.RunE
 //@   requires clientWF() && cmd != nil
+//@   requires [repo-connected] headConn()
 
 //@ func updateRefCmd.PreRunE
 //@   returns err
@@ -191,6 +198,7 @@ package cmd
 //@   returns err
 //@   modifies store.Head.Commit, store.branch.hash, fs, $rdpos, $hashdata, $screst, $sctok
 //@   requires logRecord != nil && len(logRecord.Hash) >= 20 && head != nil && head.Commit != nil && head.Commit.Object != nil && refs != nil && store.wfRefs(refs) && conf != nil && gLogger != nil
+//@   requires [commit-exists] {C03} object.commitStored(fs, rootGoitPath, logRecord.Hash)
 //@   ensures [wf] store.wfRefs(refs)
 //@   ensures [head-same] {C08} head.Reference == old(head.Reference)
 
@@ -248,10 +256,13 @@ package cmd
 //@   requires (head.Commit != nil ==> head.Commit.Object != nil)
 //@   requires (head.Commit == nil ==> forall i int :: 0 <= i && i < len(refs.Heads) ==> refs.Heads[i].Name != head.Reference)
 
+// callCount(f) is the ghost number of calls made through the function value f: -n bounds the number of commits handed
+// to walkFunc (the exact number, min(n, length of the chain), needs the commit graph and is left to the bounded stand-in)
 //@ func walkHistory
 //@   returns err
-//@   ensures [ok-type] {C14} true
-//@   modifies $rdpos, $hashdata, $screst, $sctok, $out, maps
+//@   modifies $rdpos, $hashdata, $screst, $sctok, $out, $calls, maps
 //@   requires len(hash) >= 1
+//@   ensures [bounded] {C14} callCount(walkFunc) - old(callCount(walkFunc)) <= ite(maxCount < 0, 0, maxCount)
 //@   loop 0:
 //@     invariant forall i int :: 0 <= i && i < len(queue) ==> len(queue[i]) >= 1
+//@     invariant [count] 0 <= loopCounter && callCount(walkFunc) - old(callCount(walkFunc)) <= loopCounter && (loopCounter == 0 || loopCounter <= maxCount)
